@@ -54,7 +54,18 @@ func VerifC10Threads() {
 					tables[i].Insert(w, &vobj{id: []byte{byte(th), byte(i)}})
 				}
 				if commit {
-					w.Commit()
+					var inside [3]uint64
+					for _, i := range c10lists[li] {
+						inside[i] = tables[i].Revision(w)
+					}
+					rt := w.Commit()
+					// the snapshot returned by Commit is the state this transaction published:
+					// it contains its writes and nothing committed later by others
+					for _, i := range c10lists[li] {
+						vnd.Assert(tables[i].Revision(rt) == inside[i], "C02.threads.commit-snapshot-is-the-published-state")
+						_, _, ok := tables[i].Get(rt, vIDIndex.Query([]byte{byte(th), byte(i)}))
+						vnd.Assert(ok, "C02.threads.commit-snapshot-has-own-write")
+					}
 					seen := [3]bool{}
 					for _, i := range c10lists[li] {
 						writes[th][i]++
